@@ -222,7 +222,8 @@ func (op Divp) Op_instruction_internal_state(arch *Arch, flavor string) string {
 }
 
 func (Op Divp) Op_instruction_verilog_reset(arch *Arch, flavor string) string {
-	return ""
+	// Without a reset value the state register is undefined and the instruction never starts
+	return "\t\t\tdivp_" + arch.Tag + "_state <= #1 divp_" + arch.Tag + "_put;\n"
 }
 
 func (Op Divp) Op_instruction_verilog_default_state(arch *Arch, flavor string) string {
@@ -244,7 +245,7 @@ func (Op Divp) Op_instruction_verilog_extra_modules(arch *Arch, flavor string) (
 	result += "  input     [" + strconv.Itoa(int(arch.Rsize)-1) + ":0] input_a;\n"
 	result += "  input     [" + strconv.Itoa(int(arch.Rsize)-1) + ":0] input_b;\n"
 	result += "  output    [" + strconv.Itoa(int(arch.Rsize)-1) + ":0] output_z;\n"
-	result += "  assign output_z = input_a * input_b;\n"
+	result += "  assign output_z = input_a / input_b;\n"
 	result += "\n"
 	result += "endmodule\n"
 
